@@ -80,7 +80,7 @@ class Gen:
 
     def aggregation(self):
         r = self.r
-        n = r.choice([1, 2, 3, 3, 4, 4, 5, 6, 7, 9, 12, 13, 16, 18, 19, 19])
+        n = r.choice([1, 2, 3, 3, 4, 4, 5, 6, 7, 9, 12, 13, 16, 17, 18, 19, 19])
         with_self = r.random() < 0.9
         A = self.mkset(r.randrange(0, 5), n, with_self)
         bodies = {"d1": {"id": "i1", "chain": r.choice([1, 2, 4, 255, 10001])},
@@ -175,9 +175,19 @@ class Gen:
             if m == 0:
                 continue
             qq = q(m)
-            fam = r.choice(["quorum", "short", "all", "swap", "dup", "reidx", "outsider", "junk", "err", "badbytes", "qplus"])
+            fam = r.choice(["quorum", "short", "all", "swap", "dup", "reidx", "outsider", "junk", "err", "badbytes", "qplus",
+                            "duphigh", "duphigh", "unorderedhigh"])
             idxs = sorted(r.sample(range(m), min(m, qq)))
             kw = {}
+            if fam == "duphigh" and m >= 2:
+                # enough entries for a quorum, too few distinct signers: the highest guardian index (or one of the three
+                # highest) listed three times
+                hi = m - 1 - r.choice([0, 0, 1, 2]) if m >= 4 else m - 1
+                low = [i for i in range(m) if i < hi]
+                idxs = sorted(r.sample(low, min(len(low), max(0, qq - 3)))) + [hi, hi, hi]
+            elif fam == "unorderedhigh" and m >= 3:
+                # a quorum of distinct valid signatures whose two highest entries are out of order
+                idxs = sorted(r.sample(range(m - 2), min(m - 2, max(0, qq - 2)))) + [m - 1, m - 2]
             if fam == "short":
                 idxs = idxs[:-1]
             elif fam == "all":
@@ -547,6 +557,28 @@ def quorum_site_scenarios(seed_, sizes):
         for k in others:
             steps.append(g.obs("d1", k))
         res.append({"bodies": bodies, "steps": steps, "src": "gen-quorumsites"})
+    # a message pending across a guardian-set update keeps the threshold of the set it was observed under
+    for n in sorted(set(sizes)):
+        if n < 4:
+            continue
+        A = g.mkset(1, n, True)
+        need = q(n)
+        others = [k for k in A["keys"] if k != "g1"]
+        rnd.shuffle(others)
+        first = others[:need - 2]            # with the own signature: need - 1 signers, one short
+        m = max(1, min(n - 1, need - 1))     # a smaller set whose threshold the signatures held would meet
+        keysB = (["g1"] + first + [k for k in others if k not in first])[:m]
+        rnd.shuffle(keysB)
+        B = {"idx": 2, "keys": keysB}
+        bodies = {"d1": {"id": "i1", "chain": 2}}
+        steps = [{"ev": "SetUpdate", "a": {"set": A}}, g.msg("d1", bodies), {"ev": "Loopback", "a": {"d": "d1"}}]
+        steps += [g.obs("d1", k) for k in first]
+        steps.append({"ev": "SetUpdate", "a": {"set": B}})
+        if first:
+            steps.append(g.obs("d1", first[0]))                      # retransmission: still one short of A's threshold
+        rest = [k for k in others if k not in first]
+        steps += [g.obs("d1", k) for k in rest[:2]]                   # the observation that completes A's quorum, and one more
+        res.append({"bodies": bodies, "steps": steps, "src": "gen-quorumsites-setchange"})
     return res
 
 
@@ -732,6 +764,8 @@ def attribute(rej, line):
         props.add("C01")
     if "gst" in comps:
         props.add("C03")  # heartbeats / requests are verified against that published set
+    if "agg-snap" in comps:
+        props.add("C03")  # the applicable set of an entry is what the membership of its gossiped signers is tested against
     # C02 speaks about when and what the node publishes and signs.
     if ev not in ("CleanupTick", "Advance", "InboundVAA") and not invalid_obs:
         props.add("C02")
